@@ -3,6 +3,7 @@ package html
 import (
 	"fmt"
 	"io"
+	"regexp"
 
 	"github.com/elliotchance/gedcom/v39"
 	"github.com/elliotchance/gedcom/v39/html/core"
@@ -107,8 +108,22 @@ func PageSources() string {
 	return "sources.html"
 }
 
+// unsafePageNameRegexp matches everything that cannot be used as it is in the
+// file name for a page.
+var unsafePageNameRegexp = regexp.MustCompile("[^a-zA-Z0-9_]")
+
+// PageSource returns the file name of the page for a source. It is the pointer
+// of the source (which is unique) where any character that is not a letter,
+// digit or underscore is replaced with a dash and its hexadecimal value. The
+// pointer comes from the file and must not be able to name a file in another
+// directory.
 func PageSource(source *gedcom.SourceNode) string {
-	return fmt.Sprintf("%s.html", source.Pointer())
+	name := unsafePageNameRegexp.ReplaceAllStringFunc(source.Pointer(),
+		func(s string) string {
+			return fmt.Sprintf("-%x", s)
+		})
+
+	return fmt.Sprintf("%s.html", name)
 }
 
 func PageStatistics() string {
